@@ -22,8 +22,14 @@ func goTypeName(n *Node) string {
 	case "string":
 		return "string"
 	case "int":
+		if n.W == "64" {
+			return "int64"
+		}
 		return "int"
 	case "float":
+		if n.W == "32" {
+			return "float32"
+		}
 		return "float64"
 	case "bool":
 		return "bool"
@@ -178,6 +184,8 @@ func genC12(r *Rng, tier string) *World {
 	c.MaxDepth = 2 + r.Intn(2)
 	c.PPT = Pick(r, []float64{0.3, 0.6})
 	c.PPTErr = Pick(r, []float64{0, 0.15, 0.3})
+	c.Coercers = r.P(0.4)
+	c.Widths = true
 	c.PCustomT = Pick(r, []float64{0.5, 0.8})
 	c.StructTests = 0.8
 	c.PValid = Pick(r, []float64{0.7, 0.9, 1})
@@ -427,6 +435,10 @@ func genC04(r *Rng, tier string) *World {
 			}
 		default:
 			inN = GenValidateInput(r, &GenCfg{MaxElems: 2, PValid: 0.7, PAbsent: 0.2}, N, false)
+			if kind == "time" && r.P(0.3) {
+				// the zero instant carried in another zone is not the Go zero value: present
+				inN = VT("0001-01-01T02:00:00+02:00")
+			}
 		}
 	}
 	placement := r.Intn(5)
